@@ -287,8 +287,10 @@ func (pi *PInput) serialize(w io.Writer) error {
 	}
 
 	if pi.FinalScriptSig == nil && pi.FinalScriptWitness == nil {
-		sort.Sort(psbt.PartialSigSorter(pi.PartialSigs))
-		for _, ps := range pi.PartialSigs {
+		// sort a copy: serializing must not reorder the packet it reads
+		partialSigs := append([]*psbt.PartialSig{}, pi.PartialSigs...)
+		sort.Sort(psbt.PartialSigSorter(partialSigs))
+		for _, ps := range partialSigs {
 			err := serializeKVPairWithType(
 				w,
 				uint8(psbt.PartialSigType), ps.PubKey,
@@ -333,8 +335,9 @@ func (pi *PInput) serialize(w io.Writer) error {
 			}
 		}
 
-		sort.Sort(psbt.Bip32Sorter(pi.Bip32Derivation))
-		for _, kd := range pi.Bip32Derivation {
+		derivations := append([]*psbt.Bip32Derivation{}, pi.Bip32Derivation...)
+		sort.Sort(psbt.Bip32Sorter(derivations))
+		for _, kd := range derivations {
 			err := serializeKVPairWithType(
 				w,
 				uint8(psbt.Bip32DerivationInputType), kd.PubKey,
